@@ -25,7 +25,7 @@ ASSUMPTIONS = [
     "virtual clock: asyncio timers fire in deadline order exactly as on a real clock; wall time is only a watchdog",
     "one caller at a time (concurrency is C06)",
 ]
-MUST = ["public_entry_points", "truncated_answer", "stale_datagram_while_idle", "retry_branch", "max_retries_branch", "fragment_rearm", "immediate_retry_invalid", "tcp_connect_error",
+MUST = ["auto_detected_object_silent", "public_entry_points", "truncated_answer", "stale_datagram_while_idle", "retry_branch", "max_retries_branch", "fragment_rearm", "immediate_retry_invalid", "tcp_connect_error",
         "connect_hang_bounded", "silent_exact", "success", "rejected"]
 EXHAUSTIVE = {"quick": True, "thorough": True}
 
@@ -289,6 +289,45 @@ def run_shard(spec):
                     sc["fullscript"] = list(script) + [f"entry={step[0]}"]
                     run_case(sc, part)
                     part.count("public_entry_points")
+        # an inverter object obtained through connect() WITHOUT a family (auto-detection), then a silent inverter: the budget the
+        # caller asked for governs that request too
+        from .. import env as env_, sims as sims_
+        g = env_.goodwe()
+        for fam in ("ET", "DT", "ES"):
+            for port in ((8899, 502) if fam != "ES" else (8899,)):
+                for t, r in ((1, 0), (1, 2), (2, 3), (0.5, 1)):
+                    if fam == "ES":
+                        sim = sims_.Aa55Sim("inv0")
+                    else:
+                        sim = sims_.ModbusSim("inv0", regs=(sims_.et_device_info("9010KETU000W0000", 10000) if fam == "ET" else sims_.dt_device_info("9006KDTU000W0000")))
+                    st = {}
+
+                    async def flow(loop):
+                        inv = await g.connect("inv0", port, None, 0, t, r)
+                        st["n0"], st["t0"] = len([e for e in loop.events if e[1] == "tx"]), loop.time()
+                        sim.silent = True
+                        try:
+                            await inv.read_runtime_data()
+                            st["out"] = "ok"
+                        except Exception as e:      # noqa
+                            st["out"] = type(e).__name__
+                        st["t1"] = loop.time()
+                    run = engine.run_custom({("inv0", port): sim}, flow, vtime_cap=300, tx_cap=300)
+                    part.evaluations += 1
+                    tr = "udp" if port == 8899 else "tcp"
+                    ctx = f"connect() without family -> {fam} port {port} timeout={t} retries={r}, then a silent inverter"
+                    case = {"discovered": True, "family": fam, "port": port, "t": t, "r": r}
+                    if run.stop or run.error is not None:
+                        part.violate(f"C04/{tr}/hang" if run.stop else f"C04/{tr}/setup", f"{ctx}: {run.stop or repr(run.error)}", case)
+                        continue
+                    tx = [e[0] for e in run.events if e[1] == "tx"][st["n0"]:]
+                    want = [round(st["t0"] + k * t, 9) for k in range(r + 1)]
+                    if len(tx) != r + 1 or any(abs(a - b) > 1e-6 for a, b in zip(tx, want)):
+                        part.violate(f"C04/{tr}/silent-spacing", f"{ctx}: transmissions at {[round(x - st['t0'], 6) for x in tx]}, expected {r + 1} spaced {t}", case)
+                    elif st["out"] != "RequestFailedException" or abs(st["t1"] - (st["t0"] + (r + 1) * t)) > 1e-6:
+                        part.violate(f"C04/{tr}/silent-failure-time", f"{ctx}: ended {st['out']} at +{round(st['t1'] - st['t0'], 6)}", case)
+                    else:
+                        part.count("auto_detected_object_silent")
     elif mode == "connect":
         for R in (0, 1, 2, 3):
             for depth in range(1, spec["depth"] + 1):
@@ -320,6 +359,9 @@ def run_shard(spec):
 
 def replay(case):
     part = Part()
+    if case.get("discovered"):
+        run_shard({"mode": "entries", "transport": "udp", "framing": "rtu", "T": 1, "R": 0})
+        return []
     run, vs = run_case(case["scenario"], part)
     for c in run.calls:
         print("  call", c)
